@@ -612,6 +612,10 @@ def r02_1(ctx):
         # keyed by the entry point, the function that raises and its immediate caller (helpers extracted in between do not
         # make it a different finding)
         names_ = [c.split('.')[-1] for c in chain]
+        # a raise that was moved into a helper extracted since (``_check_transport_open`` out of ``_write_frame``) is still the finding
+        # of the pinned function it was extracted from
+        while len(names_) > 2 and names_[-1] not in _pinned_function_names() and any(n_ in _pinned_function_names() for n_ in names_[1:-1]):
+            names_.pop()
         if len(names_) > 3:
             # the "immediate caller" is the nearest function on the way that the pinned tree already had: a helper extracted since
             # between a handler and the raising function is not a new place for the finding
